@@ -364,6 +364,8 @@ func Run(r *evid.Run) {
 	semantic(r)
 	semanticBefore(r)
 	midway(r)
+	delegating(r)
+	marshalErrors(r)
 }
 
 func decoderPositions(r *evid.Run) {
